@@ -420,3 +420,68 @@ def s05(tier, seed):
     run.cov["traces_validated_against_impl"] += n_ok
     run.sample({"recorded": traces[3]})
     run.finish(require_witnesses=["run_without_any_source", "run_completed", "config_from_working_directory_or_saved", "caller_dictionary_saved"])
+
+
+# ---------------------------------------------------------------------------------------------------------------
+# S06: clipping bounds of a partially reported unit (bootstrap estimator)
+
+
+def _job_partial_bounds(rows):
+    import warnings
+    from fractions import Fraction
+
+    import pandas as pd
+
+    from harness import synth  # noqa: F401
+    from elexmodel.models.BootstrapElectionModel import BootstrapElectionModel
+
+    warnings.filterwarnings("ignore")
+    bad = []
+    groups = {}
+    for r in rows:
+        s = r["sc"]
+        groups.setdefault((s["kind"], tuple(s["e"]), tuple(s["lb"]), tuple(s["ub"])), []).append(r)
+    for (kind, e, lb, ub), rs in groups.items():
+        fl = lambda q: float(Fraction(q[0], q[1]))  # noqa: E731
+        settings = {"percent_expected_vote_error_bound": fl(e), "features": ["baseline_normalized_margin"]}
+        col = "results_normalized_margin" if kind == "margin" else "turnout_factor"
+        settings.update({"y_unobserved_lower_bound": fl(lb), "y_unobserved_upper_bound": fl(ub)} if kind == "margin"
+                        else {"z_unobserved_lower_bound": fl(lb), "z_unobserved_upper_bound": fl(ub)})
+        model = BootstrapElectionModel(model_settings=settings)
+        df = pd.DataFrame({"percent_expected_vote": [float(r["sc"]["pev"]) for r in rs], col: [fl(r["sc"]["v"]) for r in rs]})
+        try:
+            lo, hi = model._generate_nonreporting_bounds(df, col)
+        except Exception as ex:  # noqa: BLE001
+            bad.append({"clause": "raised", "exc": f"{type(ex).__name__}: {str(ex)[:200]}", "group": [kind, e, lb, ub]})
+            continue
+        for r, a, b in zip(rs, lo.ravel(), hi.ravel()):
+            wl, wu = fl(r["out"]["lower"]), fl(r["out"]["upper"])
+            if not (abs(a - wl) <= 1e-9 * max(1, abs(wl)) and abs(b - wu) <= 1e-9 * max(1, abs(wu))):
+                bad.append({"clause": "bounds", "scenario": r["sc"], "expected": [wl, wu], "observed": [float(a), float(b)]})
+    return bad
+
+
+def s06(tier, seed):
+    """PartialBounds.tla: every scenario of the grid replayed into BootstrapElectionModel._generate_nonreporting_bounds."""
+    run = report.Run("S06", tier, seed)
+    run.assumptions += ["supplementary model, not a listed property: whole percentages 0..104, exact rationals; the observed margin lies in the naive range"]
+    res = tlc.run_tlc("MC_PartialBounds", "MC_PartialBounds.cfg", workers=1, timeout=600, keep_stdout=False)
+    run.add_tlc("MC_PartialBounds", res)
+    if res.violation:
+        run.violation(f"tlc:{res.violation}", {"model": "MC_PartialBounds"}, {"trace": res.error_trace[:60]})
+    common.mc(run, "MC_PartialBounds", "MC_PartialBounds_demo.cfg", expect_violation="MarginNarrowsUpTo100", workers=1,
+              name="demo: at 100 percent (still below the reporting threshold) the margin interval jumps back to the whole range")
+    scen = [v for t, v in res.printed if t == "SCEN"]
+    run.cov["exhaustive"] = True
+    jobs = [scen[i : i + 400] for i in range(0, len(scen), 400)]
+    for bads, job in zip(common.pool().map(_job_partial_bounds, jobs, chunksize=1), jobs):
+        run.cov["scenarios_replayed_into_impl"] += len(job)
+        for b in bads:
+            run.violation(b["clause"], {"clause": b["clause"]}, b)
+    for s in scen:
+        p = s["sc"]["pev"]
+        run.witness("naive_bounds" if (p < 50 or p >= 100) else "partial_bounds")
+        if s["sc"]["kind"] == "turnout" and s["sc"]["v"][0] == 0 and 50 <= p < 100:
+            run.witness("zero_turnout_upper_replaced")
+    run.sample({"scenario": scen[0]})
+    run.finish(require_witnesses=["naive_bounds", "partial_bounds", "zero_turnout_upper_replaced"])
